@@ -527,3 +527,120 @@ theorem globalRoute_spec (P : Plat) (hn : ∀ np, (allEnglobing P np).Nodup)
   globalRouteV_spec true P hn (Or.inl rfl) f src dst links lat (Or.inl rfl)
 
 end SgVerif.C24
+
+/- ================================================================ Vivaldi zones: the coordinate term given by the model -/
+namespace SgVerif.C24
+
+/-- the Route (`Plat.loc` entry) made of an answer of the Vivaldi model, its term evaluated by `ρ` -/
+def VRoute.toRoute (ρ : VTerm → Int) (m : VRoute) : Route :=
+  { links := m.links, gwSrc := m.gwSrc, gwDst := m.gwDst, extra := ρ m.term }
+
+/-- the Vivaldi zones of `P` answer what the model of VivaldiZone::get_local_route answers (`V.local`: links of the
+Star part, gateways, exception when an end has no coordinates …), and what they add to the latency beyond their links is
+the model's coordinate term `vivaldiTerm (coords src) (coords dst)` evaluated by `ρ` (the numeric evaluation of
+`(√rad + hsum) / 1000` in latency units — the only thing left abstract). -/
+def FollowsVivaldi (P : Plat) (V : Viv) (ρ : VTerm → Int) : Prop :=
+  ∀ z, V.isViv z = true → ∀ a b, P.loc z a b = (V.local P.isZone z a b).map (VRoute.toRoute ρ)
+
+/-- no other zone adds anything to the latency beyond its links -/
+def OnlyVivaldiAdds (P : Plat) (V : Viv) : Prop :=
+  ∀ z a b r, V.isViv z = false → P.loc z a b = some r → r.extra = 0
+
+theorem vivaldiLocal_term (isZone : Np → Bool) (routerOf : Np → Option Np) (coords : Np → Option Coord)
+    (t : StarTab) (verts : List Np) (a b : Np) (m : VRoute)
+    (h : vivaldiLocal isZone routerOf coords t verts a b = some m) :
+    ∃ ca cb, coords a = some ca ∧ coords b = some cb ∧ m.term = vivaldiTerm ca cb := by
+  unfold vivaldiLocal at h
+  simp only at h
+  split at h
+  · cases h
+  · split at h
+    · rename_i ca cb hca hcb
+      cases h
+      exact ⟨ca, cb, hca, hcb, rfl⟩
+    · cases h
+
+/-- what a declared segment adds beyond its links is the model's term of that segment (0 outside Vivaldi zones) -/
+theorem seg_extra_eq (P : Plat) (V : Viv) (ρ : VTerm → Int) (hV : FollowsVivaldi P V ρ) (hN : OnlyVivaldiAdds P V)
+    (s : Seg) (hs : s.valid P) :
+    s.extra = match s.vterm V with
+      | some t => ρ t
+      | none => 0 := by
+  cases s with
+  | byp z k b => rfl
+  | loc z a b r =>
+    simp only [Seg.valid] at hs
+    cases hz : V.isViv z with
+    | false =>
+      simp only [Seg.vterm, hz, Bool.false_eq_true, if_false, Seg.extra]
+      exact hN z a b r hz hs
+    | true =>
+      have h1 := hV z hz a b
+      rw [hs] at h1
+      cases hm : V.local P.isZone z a b with
+      | none => rw [hm] at h1; cases h1
+      | some m =>
+        rw [hm] at h1
+        simp only [Option.map_some, Option.some.injEq] at h1
+        obtain ⟨ca, cb, hca, hcb, ht⟩ := vivaldiLocal_term _ _ _ _ _ _ _ _ hm
+        simp only [Seg.vterm, hz, if_true, hca, hcb, Seg.extra]
+        rw [h1, ← ht]; rfl
+
+theorem segsExtra_eq_vivTerms (P : Plat) (V : Viv) (ρ : VTerm → Int) (hV : FollowsVivaldi P V ρ)
+    (hN : OnlyVivaldiAdds P V) (segs : List Seg) (hs : ∀ s ∈ segs, s.valid P) :
+    segsExtra segs = ((vivTerms V segs).map ρ).sum := by
+  induction segs with
+  | nil => rfl
+  | cons s ss ih =>
+    have h1 := seg_extra_eq P V ρ hV hN s (hs s (by simp))
+    have h2 := ih (fun x hx => hs x (by simp [hx]))
+    simp only [segsExtra, List.map_cons, List.sum_cons] at *
+    simp only [vivTerms, List.filterMap_cons]
+    cases hv : s.vterm V with
+    | none => simp only [hv] at h1 ⊢; rw [h1, h2]; simp [vivTerms]
+    | some t => simp only [hv] at h1 ⊢; rw [h1, h2]; simp [vivTerms]
+
+/-- every term of `vivTerms` is the model's term of a Vivaldi segment of the route -/
+theorem vivTerms_mem (V : Viv) (segs : List Seg) (t : VTerm) (h : t ∈ vivTerms V segs) :
+    ∃ z a b r ca cb, Seg.loc z a b r ∈ segs ∧ V.isViv z = true ∧ V.coords a = some ca ∧ V.coords b = some cb ∧
+      t = vivaldiTerm ca cb := by
+  simp only [vivTerms, List.mem_filterMap] at h
+  obtain ⟨s, hs, hst⟩ := h
+  cases s with
+  | byp z k b => simp [Seg.vterm] at hst
+  | loc z a b r =>
+    simp only [Seg.vterm] at hst
+    split at hst
+    · rename_i hz
+      split at hst
+      · rename_i ca cb hca hcb
+        cases hst
+        exact ⟨z, a, b, r, ca, cb, hs, hz, hca, hcb, rfl⟩
+      · cases hst
+    · cases hst
+
+/-- (Σ xᵢ : Int) / U = Σ (xᵢ / U) over the rationals -/
+theorem ratCast_sum_div {α : Type} (l : List α) (g : α → Int) (U : Nat) :
+    (((l.map g).sum : Int) : Rat) / U = (l.map (fun x => (g x : Rat) / U)).sum := by
+  induction l with
+  | nil => simp only [List.map_nil, List.sum_nil]; grind
+  | cons x xs ih =>
+    simp only [List.map_cons, List.sum_cons]
+    rw [Rat.intCast_add, ← ih]
+    grind
+
+theorem sum_between {α : Type} (l : List α) (g lo hi : α → Int) (ε : Int)
+    (h : ∀ x ∈ l, lo x - ε ≤ g x ∧ g x ≤ hi x + ε) :
+    (l.map lo).sum - l.length * ε ≤ (l.map g).sum ∧ (l.map g).sum ≤ (l.map hi).sum + l.length * ε := by
+  induction l with
+  | nil => simp
+  | cons x xs ih =>
+    have h1 := h x (by simp)
+    have h2 := ih (fun y hy => h y (by simp [hy]))
+    simp only [List.map_cons, List.sum_cons, List.length_cons]
+    have e : ((xs.length + 1 : Nat) : Int) * ε = xs.length * ε + ε := by
+      rw [Int.natCast_add, Int.add_mul]; simp
+    rw [e]
+    omega
+
+end SgVerif.C24
